@@ -47,3 +47,25 @@ Theorem C11_completed_admin_ops_hold_under_concurrency :
     AInv ops (fst (fst (run_sched ths [1; 2] ts0 sched []))) (snd (fst (run_sched ths [1; 2] ts0 sched []))).
 Proof. exact s3_completed_ops_hold. Qed.
 Print Assumptions C11_completed_admin_ops_hold_under_concurrency.
+
+From Helios Require Import Proofs.ListingProofs.
+
+(* A listing that overlaps removals (ListBackends copies the pool under the balancer's lock, then visits every backend of its
+   copy; RemoveBackend swaps the last backend into the freed slot): under EVERY schedule, with any number of concurrent listings
+   and removals, a finished listing names no backend twice, only backends of the pool, and every backend nobody removes.
+   (Step-level model Model/Conc.v scenario 5, tied to the real code by schedule replay.) *)
+Theorem C11_listing_consistent :
+  forall n kinds sched, (forall k, In k kinds -> k = 30 \/ 41 <= k) ->
+    let init := map Z.of_nat (seq 1 (Z.to_nat n)) in
+    let ths := map s5_thread kinds in
+    let ts0 := map (fun _ : Z => mkTS (([] : list Z), ([] : list Z)) (Some 0)) kinds in
+    let ts := snd (fst (run_sched ths init ts0 sched [])) in
+    forall i st, nth_error kinds i = Some 30 -> nth_error ts i = Some st -> ts_pc st = None ->
+      let listing := snd (ts_local st) in
+      NoDup listing /\ (forall x, In x listing -> 1 <= x <= n) /\ (forall x, 1 <= x <= n -> memZ (40 + x) kinds = false -> In x listing).
+Proof. intros n kinds sched Hk. exact (s5_all_schedules n kinds Hk sched). Qed.
+Print Assumptions C11_listing_consistent.
+
+Example C11_listing_nonvacuous :
+  fst (s5_run 3 [30; 42] [0; 0; 1; 0; 0]) = [1; 2; 3; -1; 1; 3].
+Proof. vm_compute. reflexivity. Qed.
